@@ -496,7 +496,7 @@ func verifC27Cleanup() {
 func TestVerifC27(t *testing.T) {
 	defer verifC27Cleanup()
 	verifutil.Main(t, &verifutil.Harness{
-		ID: "C27", Exec: verifC27Exec, Gen: verifC27Gen, Quick: 40, Thorough: 35,
+		ID: "C27", Exec: verifC27Exec, Gen: verifC27Gen, Quick: 30, Thorough: 35,
 		Class: func(op, impl string) string {
 			f := strings.Fields(op)
 			switch f[0] {
